@@ -125,71 +125,28 @@ class gettz_env:
 # statement tables: source line -> (model pc the thread is AT when paused before the line,
 # whether executing the line is a model statement)   [first visit, second visit in one call]
 # --------------------------------------------------------------------------------------
-LRU_PATTERNS = [
-    (r"with cls\._{1,2}cache_lock", ("lAcq", True), ("xRel", True)),
-    (r"=\s*cls\.__instances\.get\(", ("lGet", True), None),
-    (r"if instance is None", ("lTest", True), None),
-    (r"instance = cls\.__instances\.setdefault\(", ("lAlloc", False), ("lSdRead", True)),
-    (r"^\s*cls\.instance\(", ("lAlloc", True), None),
-    (r"cls\.__strong_cache\[key\] = cls\.__strong_cache\.pop\(key, instance\)", ("xTouch", True), None),
-    (r"if len\(cls\.__strong_cache\) > cls\.__strong_cache_size", ("xLen", True), None),
-    (r"cls\.__strong_cache\.popitem\(last=False\)", ("xEvict", True), None),
-    (r"return instance", ("xRet", True), None),
-]
-GETTZ_PATTERNS = [
-    (r"with self\._cache_lock", ("gAcq", True), ("REL", True)),
-    (r"rv = self\.__instances\.get\(name, None\)", ("gGet", True), None),
-    (r"if rv is None:", ("gTest", True), None),
-    (r"rv = self\.nocache\(name=name\)", ("gAlloc", True), None),
-    (r"if not \(name is None", ("gCheck", True), None),
-    (r"^\s*or ", (None, False), None),
-    (r"self\.__instances\[name\] = rv", ("gStore", True), None),
-    (r"self\.__strong_cache\[name\] = self\.__strong_cache\.pop\(name, rv\)", ("xTouch", True), None),
-    (r"if len\(self\.__strong_cache\) > self\.__strong_cache_size", ("xLen", True), None),
-    (r"self\.__strong_cache\.popitem\(last=False\)", ("xEvict", True), None),
-    (r"return rv", ("RET", True), None),      # first textual occurrence: early return (tau); last: xRet
-]
-SETSIZE_PATTERNS = [
-    (r"with self\._cache_lock", ("sAcq", True), ("sRel", True)),
-    (r"self\.__strong_cache_size = size", ("sSet", True), None),
-    (r"while len\(self\.__strong_cache\) > size", ("sLoop", True), None),
-    (r"self\.__strong_cache\.popitem\(last=False\)", ("sPop", True), None),
-]
-CLEAR_PATTERNS = [
-    (r"with self\._cache_lock", ("cAcq", True), ("cRel", True)),
-    (r"self\.__instances = weakref\.WeakValueDictionary\(\)", ("cWeak", True), None),
-    (r"self\.__strong_cache\.clear\(\)", ("cStrong", True), None),
-]
-SINGLE_PATTERNS = [
-    (r"if cls\.__instance is None", ("uTest", True), None),
-    (r"cls\.__instance = super\(", ("uAlloc", True), None),
-    (r"return cls\.__instance", ("uRet", True), None),
-]
-
-
 class ShapeChanged(Exception):
-    """the source of a modelled function no longer has the statement shape the model mirrors"""
+    """a modelled method is outside the translated fragment: no statement table for this run (the broken tie
+    itself is reported by the translator: harness/gen.py -> Generated/FactoryPrograms.lean / C18.program_sim)"""
 
 
-def line_table(func, patterns, required):
-    """{lineno: [(pc, fires) for visit 1, (pc, fires) for visit 2]}; lines that match nothing are
-    statements without a model counterpart (local computation)"""
-    try:
-        src, first = inspect.getsourcelines(func)
-    except (OSError, TypeError) as ex:
-        raise ShapeChanged("no source for %r: %s" % (func, ex))
-    table, seen = {}, {}
-    for off, text in enumerate(src):
-        stripped = text.split("#")[0]
-        for rx, v1, v2 in patterns:
-            if re.search(rx, stripped):
-                table[first + off] = [v1, v2]
-                seen.setdefault(rx, []).append(first + off)
-                break
-    for rx in required:
-        if rx not in seen:
-            raise ShapeChanged("%s: no statement matching /%s/" % (getattr(func, "__qualname__", func), rx))
-    return table, seen
+_TABLES = {}
+
+
+def statement_tables():
+    """line -> (model pc, fires) tables of the translated methods, derived by harness/translate_factory.py from
+    the same AST walk as the statement IR (they replace the former regular-expression tables)"""
+    import dateutil, translate_factory as TF
+    from translate import Untranslatable
+    src = os.path.dirname(os.path.abspath(dateutil.__file__))
+    if src not in _TABLES:
+        try:
+            _TABLES[src] = TF.statement_tables(src)
+        except (Untranslatable, SyntaxError, OSError) as ex:
+            _TABLES[src] = ShapeChanged(str(ex))
+    if isinstance(_TABLES[src], Exception):
+        raise _TABLES[src]
+    return _TABLES[src]
 
 
 # --------------------------------------------------------------------------------------
@@ -253,8 +210,7 @@ class LruFac(Fac):
         return tuple(self.keys[k]) in self.raising
 
     def functions(self):
-        req = [p[0] for i, p in enumerate(LRU_PATTERNS) if i != 4]
-        return {"call": (self.meta.__call__, LRU_PATTERNS, req)}
+        return {"call": (self.meta.__call__, "offsetCall" if self.flavour == "tzoffset" else "strCall")}
 
     def install_lock(self, lock):
         setattr(self.cls, self.lock_attr, lock)
@@ -331,9 +287,8 @@ class GettzFac(Fac):
 
     def functions(self):
         T = type(self.f)
-        return {"call": (T.__call__, GETTZ_PATTERNS, [p[0] for i, p in enumerate(GETTZ_PATTERNS) if i != 5]),
-                "setsize": (T.set_cache_size, SETSIZE_PATTERNS, [p[0] for p in SETSIZE_PATTERNS]),
-                "clear": (T.cache_clear, CLEAR_PATTERNS, [p[0] for p in CLEAR_PATTERNS])}
+        return {"call": (T.__call__, "gettzCall"), "setsize": (T.set_cache_size, "gettzSetCacheSize"),
+                "clear": (T.cache_clear, "gettzCacheClear")}
 
     def install_lock(self, lock):
         self.f._cache_lock = lock
@@ -379,7 +334,7 @@ class SingleFac(Fac):
         self.cap = 8
 
     def functions(self):
-        return {"call": (self.meta.__call__, SINGLE_PATTERNS, [p[0] for p in SINGLE_PATTERNS])}
+        return {"call": (self.meta.__call__, "singletonCall")}
 
     def install_lock(self, lock):
         pass
@@ -729,19 +684,14 @@ def build_tables(fac, lenient=False):
     has the modelled statement shape is still scheduled line by line, but without a model
     counterpart (returns the list of such functions as third component)."""
     tables, info, unmapped = {}, {}, []
-    for tag, (fn, pats, req) in fac.functions().items():
+    for tag, (fn, lean_name) in fac.functions().items():
         try:
-            table, seen = line_table(fn, pats, req)
-            if tag == "call" and fac.model_kind == "gettz":
-                rets = seen.get(r"return rv", [])
-                if len(rets) != 2:
-                    raise ShapeChanged("GettzFunc.__call__: expected two `return rv` statements, found %d" % len(rets))
-                table[rets[0]] = [("gRelE", False), None]
-                table[rets[1]] = [("xRet", True), None]
+            table = statement_tables()[lean_name]
         except ShapeChanged as ex:
             if not lenient:
                 raise
-            unmapped.append(str(ex))
+            if str(ex) not in unmapped:
+                unmapped.append(str(ex))
             table = {}
         tables[fn.__code__] = (tag, table)
         info[tag] = table
